@@ -148,10 +148,29 @@ def parseOp : List String → Option Op
 
 /-! ### rendering -/
 
+/-- `<hexname>@<hexk>:<hexv>&…` -/
+def seriesId (name : Bytes) (tags : Tags) : String :=
+  hexEncode name ++ "@" ++ "&".intercalate (tags.map fun t => hexEncode t.1 ++ ":" ++ hexEncode t.2)
+
+def parseSeriesId (s : String) : Option (Bytes × Tags) :=
+  match s.splitOn "@" with
+  | [n, ts] =>
+    match hexDecode n, (if ts = "" then some [] else (ts.splitOn "&").mapM fun kv =>
+        match kv.splitOn ":" with
+        | [k, v] => match hexDecode k, hexDecode v with
+          | some kb, some vb => some (kb, vb)
+          | _, _ => none
+        | _ => none) with
+    | some nb, some tl => some (nb, tl)
+    | _, _ => none
+  | _ => none
+
 def renderSeries (l : List Series) : String :=
   if l.isEmpty then "-" else
   ";".intercalate (l.map fun s =>
-    hexEncode (seriesKeyOf s) ++ "=" ++ ",".intercalate (s.pts.map fun p => toString p.1 ++ ":" ++ toString p.2))
+    seriesId s.name s.tags ++ "=" ++ ",".intercalate (s.pts.map fun p => toString p.1 ++ ":" ++ toString p.2))
+
+def renderIds (l : List Series) : String := joinComma (l.map fun s => seriesId s.name s.tags)
 
 def renderNames (l : List Bytes) : String := joinComma (l.map hexEncode)
 
@@ -180,7 +199,7 @@ def stepOp (st : Option State) (op : Op) : Option State × String :=
     | none => (some s, "bad-op")
   | some s, .ls sh =>
     match readShard s sh with
-    | some l => (some s, renderNames (l.map seriesKeyOf))
+    | some l => (some s, renderIds l)
     | none => (some s, "bad-op")
   | some s, .mn a c => (some s, renderNames (measurementNames a s c))
   | some s, .tk a ids nc kc f =>
